@@ -194,7 +194,7 @@ func sendCuts(fn *ssa.Function, isMsg func(ssa.Value) bool, isChan func(ssa.Valu
 }
 
 func c01put(c *an.Ctx) {
-	wmb := c.Fn("nsqd", "writeMessageToBackend")
+	wmb := backendWriterFn(c)
 	if wmb == nil {
 		return
 	}
